@@ -45,6 +45,16 @@ for _j in _JUNK + ["/* a", "\"x", "info!(", "info!(\"", "(", "[ref: ", "ref = ",
     CRAFTED.append(('    let globs = ["src%s", "tests%s", "benches%s"];\n' % (_j, _j, _j) * 12).encode("utf-8"))
 
 
+# very deep nesting (a recursive recogniser needs a stack frame per level): 150 000 closed levels of each bracket kind in every
+# argument position
+for _o, _c in ((b"(", b")"), (b"[", b"]"), (b"{", b"}"), (b"/*", b"*/")):
+    _deep = _o * 150000 + b"x" + _c * 150000
+    CRAFTED.append(b'info!(a = f' + _deep + b'; "nested value");\nwarn!("after");\n')
+    CRAFTED.append(b'info!(target: "t", k = v, z = g' + _deep + b', ref = 5; "nested value before a ref");\n')
+    CRAFTED.append(b'let v = h' + _deep + b';\ninfo!("after deep nesting in ordinary code");\n')
+    CRAFTED.append(b'info!("message {}", w' + _deep + b');\n')
+
+
 for _tail in (b"\xc3", b"\xe2\x82", b"\xf0\x9f\x98", b"\xe4", b"\xf0", b"\xf0\x9f"):
     CRAFTED.append(b'fn f() { info!("ok"); }\n// Gr' + _tail)
     CRAFTED.append(b'info!("cut ' + _tail)
@@ -235,6 +245,45 @@ def work(job):
     return res
 
 
+def special_work(job):
+    """Entries that are not regular files but are named like sources (a named pipe nobody writes to, a socket, a directory called
+    x.rs, a dangling symlink): both modes still terminate and process the regular files."""
+    built, seed, i = job
+    import socket as _socket
+    res = {"evaluations": 0, "nontrivial": [], "violations": [], "samples": [], "inconclusive": {}, "counters": {}}
+    for mode in ("check", "edit"):
+        with core.Box(tag="c17s") as box:
+            for rel, d in (("src/aa_first.rs", b'fn a() { error!("good too"); }\n'), ("src/good.rs", b'fn g() { info!("good one"); }\n'),
+                           ("src/zz_last.rs", b'fn z() { warn!("also good"); }\n')):
+                box.write(rel, d)
+            os.mkfifo(os.path.join(box.proj, "src", "ipc_events.rs"))
+            os.makedirs(os.path.join(box.proj, "src", "ipc"))
+            os.mkfifo(os.path.join(box.proj, "src", "ipc", "m_pipe.rs"))
+            os.makedirs(os.path.join(box.proj, "src", "directory.rs"))
+            os.symlink("nowhere.rs", os.path.join(box.proj, "src", "dangling.rs"))
+            sk = _socket.socket(_socket.AF_UNIX)
+            try:
+                sk.bind(os.path.join(box.proj, "src", "ctl.rs"))
+            except OSError:
+                pass
+            sk.close()
+            cfg = box.write("Breadlog.yaml", core.make_config(use_cache=False, structured=True if i % 2 else None))
+            rec = core.run_breadlog(built, box, cfg, check=(mode == "check"), timeout=30)
+            good_done = all(b"ref" in box.read(g) for g in ("src/good.rs", "src/zz_last.rs", "src/aa_first.rs")) if mode == "edit" else \
+                len([m for m in rec.missing() if m[0].endswith(("good.rs", "zz_last.rs", "aa_first.rs"))]) == 3
+        res["evaluations"] += 1
+        what = bad(rec)
+        if what:
+            res["violations"].append({"signature": "C17.%s|special-files-named-like-sources|%s" % (what, mode), "detail": {"stderr": rec.err[-300:], "stdout": rec.out[-300:]},
+                                      "case": {"special": [seed, i]}})
+        elif not good_done:
+            res["violations"].append({"signature": "C17.good-file-not-processed-next-to-special-files|%s" % mode, "detail": {"stdout": rec.out[-400:], "exit": rec.ended()},
+                                      "case": {"special": [seed, i]}})
+    res["nontrivial"].append("special|%d" % (i % 2))
+    res["counters"]["trees_with_special_files"] = 1
+    return res
+
+
 def skip_work(job):
     """One unreadable-as-text file next to a good one: the good one is processed, the bad one is named and left alone."""
     built, seed, i = job
@@ -314,6 +363,8 @@ def main(tier):
         ck.absorb(res)
     for res in frame.pmap(skip_work, [(built, ck.seed, i) for i in range(24 if quick else 240)]):
         ck.absorb(res)
+    for res in frame.pmap(special_work, [(built, ck.seed, i) for i in range(2 if quick else 8)]):
+        ck.absorb(res)
     if tier == "thorough":
         try:
             ovf = core.build_repo(profile="debug", overflow_checks=True)
@@ -341,6 +392,8 @@ def main(tier):
 def replay_witness(w, ck=None, built=None):
     built = built or (ck.built if ck else None) or core.build_repo()
     c = w["case"] if "case" in w else w["first"]["case"]
+    if c.get("special"):
+        return bool(special_work((built, c["special"][0], c["special"][1]))["violations"])
     if c.get("skipjob"):
         return bool(skip_work((built, c["skipjob"][0], c["skipjob"][1]))["violations"])
     d = c["data"]
